@@ -179,15 +179,23 @@ impl Vm {
             let file_id = self.files.upsert(path, source_content);
             self.pop_roots(1);
 
+            // the module is registered once it has compiled. A later
+            // import must not find a module whose body can never run
             let module = self.module(&module_name, &path);
-            if let Err(err) = parent_module.insert_module(module) {
-              match err {
-                ModuleInsertError::ModuleAlreadyExists => todo!(),
-              }
-            }
+            self.push_root(module);
+            let compiled = self.compile(false, module, &source, file_id);
+            self.pop_roots(1);
 
-            match self.compile(false, module, &source, file_id) {
-              Ok(fun) => ImportResult::Compiled(fun),
+            match compiled {
+              Ok(fun) => {
+                if let Err(err) = parent_module.insert_module(module) {
+                  match err {
+                    ModuleInsertError::ModuleAlreadyExists => todo!(),
+                  }
+                }
+
+                ImportResult::Compiled(fun)
+              },
               Err(errors) => {
                 let mut stdio = self.io.stdio();
                 let stderr_color = stdio.stderr_color();
